@@ -250,6 +250,40 @@ Theorem C16g_link_find_rigid_matches_rev :
 Proof. exact link_find_rigid_matches_rev. Qed.
 Print Assumptions C16g_link_find_rigid_matches_rev.
 
+Theorem C16g_link_flatten_concat_fuel :
+  forall (fuel : nat) (r : RE) (v : list RE),
+       (height (conv_re r) <= fuel)%nat ->
+       exists l : list RE,
+         M_fn_flatten_concat fuel r v = Some (v ++ l, tt) /\
+         map conv_re l = flatten_concat (conv_re r).
+Proof. exact link_flatten_concat_fuel. Qed.
+Print Assumptions C16g_link_flatten_concat_fuel.
+
+Theorem C16g_link_decompose_concat :
+  forall (fuel : nat) (r : RE),
+       (height (conv_re r) <= fuel)%nat ->
+       option_map (map conv_re) (M_fn_decompose_concat fuel r) = Some (flatten_concat (conv_re r)).
+Proof. exact link_decompose_concat. Qed.
+Print Assumptions C16g_link_decompose_concat.
+
+Theorem C16g_link_flatten_inter_fuel :
+  forall (fuel : nat) (r : RE) (v : list RE),
+       (height (conv_re r) <= fuel)%nat ->
+       exists l : list RE,
+         M_fn_flatten_inter fuel r v = Some (v ++ l, tt) /\
+         map conv_re l = flatten_inter (conv_re r).
+Proof. exact link_flatten_inter_fuel. Qed.
+Print Assumptions C16g_link_flatten_inter_fuel.
+
+Theorem C16g_link_flatten_union_fuel :
+  forall (fuel : nat) (r : RE) (v : list RE),
+       (height (conv_re r) <= fuel)%nat ->
+       exists l : list RE,
+         M_fn_flatten_union fuel r v = Some (v ++ l, tt) /\
+         map conv_re l = flatten_union (conv_re r).
+Proof. exact link_flatten_union_fuel. Qed.
+Print Assumptions C16g_link_flatten_union_fuel.
+
 (* ---- C16 statements on the translated code ---- *)
 
 Theorem C16g_base_patterns_tiles :
@@ -290,3 +324,45 @@ Theorem C16g_rigid_prefix_sound :
        CL (slice (map conv_re v) (BasePattern_start p) (BasePattern_end p)) w.
 Proof. exact g_rigid_prefix_sound. Qed.
 Print Assumptions C16g_rigid_prefix_sound.
+
+Theorem C16g_decompose_concat_total :
+  forall (fuel : nat) (r : RE),
+       (height (conv_re r) <= fuel)%nat ->
+       exists l : list RE, M_fn_decompose_concat fuel r = Some l.
+Proof. exact g_decompose_concat_total. Qed.
+Print Assumptions C16g_decompose_concat_total.
+
+Theorem C16g_decompose_concat_lang :
+  forall (fuel : nat) (r : RE) (l : list RE),
+       (height (conv_re r) <= fuel)%nat ->
+       M_fn_decompose_concat fuel r = Some l ->
+       forall w : word, L (conv_re r) w <-> CL (map conv_re l) w.
+Proof. exact g_decompose_concat_lang. Qed.
+Print Assumptions C16g_decompose_concat_lang.
+
+Theorem C16g_decompose_concat_fuel_irrelevant :
+  forall (f1 f2 : nat) (r : RE),
+       (height (conv_re r) <= f1)%nat ->
+       (height (conv_re r) <= f2)%nat ->
+       option_map (map conv_re) (M_fn_decompose_concat f1 r) =
+       option_map (map conv_re) (M_fn_decompose_concat f2 r).
+Proof. exact g_decompose_concat_fuel_irrelevant. Qed.
+Print Assumptions C16g_decompose_concat_fuel_irrelevant.
+
+Theorem C16g_flatten_inter_lang :
+  forall (fuel : nat) (r : RE) (v : list RE),
+       (height (conv_re r) <= fuel)%nat ->
+       exists l : list RE,
+         M_fn_flatten_inter fuel r v = Some (v ++ l, tt) /\
+         (forall w : word, L (conv_re r) w <-> (forall x : RE, In x l -> L (conv_re x) w)).
+Proof. exact g_flatten_inter_lang. Qed.
+Print Assumptions C16g_flatten_inter_lang.
+
+Theorem C16g_flatten_union_lang :
+  forall (fuel : nat) (r : RE) (v : list RE),
+       (height (conv_re r) <= fuel)%nat ->
+       exists l : list RE,
+         M_fn_flatten_union fuel r v = Some (v ++ l, tt) /\
+         (forall w : word, L (conv_re r) w <-> (exists x : RE, In x l /\ L (conv_re x) w)).
+Proof. exact g_flatten_union_lang. Qed.
+Print Assumptions C16g_flatten_union_lang.
